@@ -24,6 +24,9 @@ import (
 //   crash      the process dies INSIDE a call (`crash-next at=k`): after k = 0, 1, 2, 3 (and beyond) of the call's
 //              durable writes, with and without carry-over, batch cut by the limit, a DA fault in the middle;
 //              then drained. Beyond C20's quantifier (restarts between calls): effects counted as beyond-quantifier/..., only C20/crash/unaccounted/... is reported
+//   identical  ids=content (ids = height ‖ sha256(blob), as core/da.DummyDA): heights with 2-4 byte-identical txs, adjacent
+//              and not, the same bytes also in the next height; limits that push several copies back in one call;
+//              restarts between calls; drained: every DA ENTRY (position) is released exactly once
 //   lawless    forged LastBatchData, wrong chain id, any op order (contract=0: size bound + correspondence only)
 //   malformed  broken op lines
 type g struct {
@@ -344,6 +347,60 @@ func (g *g) crash() {
 	g.p("end max=%d calls=%d", max, ntx+head+3)
 }
 
+func (g *g) identical() {
+	start, drift := uint64(g.r.Intn(2)), uint64(1+g.r.Intn(3))
+	g.p("reset start=%d drift=%d ids=content fam=identical", start, drift)
+	sz := 2 + g.r.Intn(4)
+	b := g.tx(sz) // the tx that occurs several times
+	nh := 1 + g.r.Intn(3)
+	ntx := 0
+	first := 0
+	for h := 0; h < nh; h++ {
+		var l [][]byte
+		copies := 2 + g.r.Intn(3)
+		if h > 0 && g.r.Chance(40) {
+			copies = 1 // the same bytes again, in another height (a different id)
+		}
+		n := copies + g.r.Intn(3)
+		at := g.r.Perm(n)[:copies]
+		if g.r.Chance(50) { // adjacent copies at the end of the height
+			at = at[:0]
+			for i := n - copies; i < n; i++ {
+				at = append(at, i)
+			}
+		}
+		isCopy := map[int]bool{}
+		for _, i := range at {
+			isCopy[i] = true
+		}
+		for i := 0; i < n; i++ {
+			if isCopy[i] {
+				l = append(l, b)
+			} else {
+				l = append(l, g.tx(sz))
+			}
+		}
+		if h == 0 {
+			first = n
+		}
+		ntx += n
+		g.p("put h=%d txs=%s", h+int(start), hx.HexList(l))
+	}
+	head := int(start) + nh + g.r.Intn(3)
+	g.p("head n=%d", head)
+	// takes j txs per scan and pushes the rest of the height back: j small => several copies go back in one call
+	j := 1 + g.r.Intn(2)
+	if first > 3 && g.r.Chance(30) {
+		j = first - 2
+	}
+	max := j*sz + 1
+	for i, n := 0, 2+g.r.Intn(5); i < n; i++ {
+		g.p("next max=%d", max)
+		g.maybeRestart(40)
+	}
+	g.p("end max=%d calls=%d", max, ntx+head+3)
+}
+
 func (g *g) lawless() {
 	start, drift := uint64(g.r.Intn(4)), uint64(g.r.Intn(4))
 	g.p("reset start=%d drift=%d contract=0 fam=lawless", start, drift)
@@ -440,8 +497,16 @@ func gen(r *hx.Rng, tier string, w io.Writer) {
 	x.p("next max=5")
 	x.p("next max=5")
 	x.p("end max=5 calls=10")
+	// two byte-identical DA entries in one height (content-derived ids: they share an id), both pushed back in one call
+	x.p("reset start=1 drift=2 ids=content fam=seeded-identical")
+	x.p("put h=1 txs=aa01,bb02,bb02")
+	x.p("head n=3")
+	x.p("next max=3")
+	x.p("restart")
+	x.p("end max=3 calls=10")
 	for i := 0; i < n; i++ {
 		x.single()
+		x.identical()
 		x.crash()
 		x.crash()
 		x.exactfill()
